@@ -46,11 +46,15 @@ def gen_script(rng, n_nodes, n_values, depth, may_raise=True):
         elif r < 0.5:
             out.append(["look"])
         elif r < 0.9 and depth > 0:
+            catch = rng.random() < 0.4
             if n_values and rng.random() < 0.25:
-                out.append(["call", ["value", rng.randrange(n_values)], []])
+                a = ["call", ["value", rng.randrange(n_values)], []]
             else:
-                out.append(["call", ["node", rng.randrange(n_nodes)], gen_script(rng, n_nodes, n_values, depth - 1, may_raise)])
-        elif may_raise and r > 0.93:
+                a = ["call", ["node", rng.randrange(n_nodes)], gen_script(rng, n_nodes, n_values, depth - 1, may_raise)]
+            if catch:
+                a = ["try", a[1], a[2], rng.choice(["<unprintable>", "?", ""])]
+            out.append(a)
+        elif may_raise and r > 0.91:
             out.append(["raise"])
             break
         else:
@@ -115,6 +119,17 @@ def deep_history(depth):
 
 
 FIXED = [
+    # a printer catches the failure of a nested call (Box -> Expression -> Bad) and carries on: the rest of the same call,
+    # and later calls, must be as in a fresh interpreter
+    {"nodes": ["plain", "plain", "model"],
+     "values": [["expr", [["sym", "f"], ["node", 1]]], ["expr", [["sym", "y"]]], ["list", [["val", 0], ["int", 2]]]],
+     "calls": [{"target": ["node", 0],
+                "script": [["emit", "(Box "], ["try", ["value", 0], [], "<unprintable>"], ["emit", " "], ["call", ["value", 1], []],
+                           ["look"], ["emit", ")"]],
+                "defaults": {"1": [["raise"]]}},
+               {"target": ["value", 1], "script": [], "defaults": {}},
+               {"target": ["value", 2], "script": [], "defaults": {"1": [["emit", "ok"]]}},
+               {"target": ["node", 2], "script": [["look"], ["try", ["node", 1], [["call", ["node", 2], []], ["raise"]], "?"], ["look"]]}]},
     # a printer raises two levels down; then the objects that were on the stack are printed
     {"nodes": ["plain", "plain", "model"], "values": [["list", [["node", 0], ["int", 1]]], ["odict", [[["str", "a"], ["val", 0]]]]],
      "calls": [{"target": ["value", 1], "script": [], "defaults": {"0": [["call", ["node", 1], [["raise"]]]]}},
@@ -146,6 +161,8 @@ def coq_script(s):
             out.append("ALook")
         elif a[0] == "raise":
             out.append("ARaise")
+        elif a[0] == "try":
+            out.append("ATry %d%%nat [%s] %s" % (a[1][1], "; ".join(coq_script(a[2])), pc.ctext(a[3])))
         else:
             out.append("ACall %d%%nat [%s]" % (a[1][1], "; ".join(coq_script(a[2]))))
     return out
@@ -164,7 +181,7 @@ def coq_history(h):
 
 def is_pure(h):
     def ok(s):
-        return all(a[0] != "call" or (a[1][0] == "node" and ok(a[2])) for a in s)
+        return all(a[0] not in ("call", "try") or (a[1][0] == "node" and ok(a[2])) for a in s)
     return all(c["target"][0] == "node" and ok(c["script"]) for c in h["calls"])
 
 
@@ -186,8 +203,8 @@ def run(chk):
     n_mixed = 2500 if thorough else 350
     chk.rule = ("histories of 2-6 top-level hy.repr calls over 1-4 scripted objects (plain / model / with their own placeholder) "
                 "and shared ordinary values (lists, tuples, deques, dicts, OrderedDicts, cyclic lists and dicts, models) that hold "
-                "them; a printer script emits text, reports the state it sees, calls hy.repr on any object (also one in progress) "
-                "or raises, nested to depth 3; plus fixed histories incl. a RecursionError on a list nested 4x the recursion "
+                "them; a printer script emits text, reports the state it sees, calls hy.repr on any object (also one in progress), "
+                "does so inside try/except and carries on after a failure, or raises, nested to depth 3; plus fixed histories incl. a RecursionError on a list nested 4x the recursion "
                 "limit; non-trivial = distinct history with a raising or re-entrant printer")
     histories = list(FIXED) + [deep_history(sys.getrecursionlimit() * 4)]
     histories += [gen_history(rng, True) for _ in range(n_pure)]
